@@ -33,6 +33,21 @@ func c08Run(w *W) {
 	w.SetShape("msgs", nmsg)
 	w.SetShape("tasks", ntask)
 	w.UseNet(NetCfg{Segment: w.Choose(simrt.SShape, 2) == 0})
+	// variants: a member that never reads behind a short send queue (the others
+	// must be unaffected: "queue space permitting" is per peer), and a member
+	// with a tiny receive queue that sends a burst well within its send queue
+	slow := w.Choose(simrt.SShape, 4) == 0 && (topo == "star" || topo == "bus-mesh" || topo == "bus-device") && n >= 3
+	burst := !slow && w.Choose(simrt.SShape, 4) == 0
+	if slow {
+		// enough traffic to overflow the 128-deep send queue towards the member
+		// that never reads, over a transport that exerts back-pressure
+		nmsg, ntask = 50, 2
+		if tran == "sim" {
+			w.UseNet(NetCfg{BufCap: 64})
+		}
+	}
+	w.SetShape("slow_member", slow)
+	w.SetShape("burst", burst)
 	var members []*c8Member
 	var all []mangos.Socket
 	defer func() {
@@ -42,6 +57,11 @@ func c08Run(w *W) {
 	}()
 	mk := func(name, kind string) *c8Member {
 		m := &c8Member{name: name, s: w.Sock(kind), expect: map[string]bool{}, sender: true}
+
+		if burst {
+			// only the receive queue is small; the send queues keep their 128
+			_ = m.s.SetOption(mangos.OptionReadQLen, 1+w.Choose(simrt.SShape, 2))
+		}
 		all = append(all, m.s)
 		members = append(members, m)
 		return m
@@ -142,8 +162,23 @@ func c08Run(w *W) {
 	w.Op("topology %s over %s: %d members, each sends %d messages from %d tasks", topo, tran, len(members), nmsg, ntask)
 	w.Sleep(5 * time.Millisecond)
 	w.Settle()
+	var slowM *c8Member
+	if slow {
+		// the last leaf never reads and never sends
+		slowM = members[len(members)-1]
+		slowM.sender = false
+		w.Op("%s never reads", slowM.name)
+		w.Probe("slow-member")
+	}
 	for _, m := range members {
+		if m == slowM {
+			m.r = &c2Recv{name: m.name, s: m.s}
+			continue
+		}
 		m.r = c2StartReceiver(w, m.name, m.s, 300*time.Millisecond)
+	}
+	if burst {
+		w.Probe("burst-within-send-queue")
 	}
 	var calls []*Call
 	for _, m := range members {
@@ -158,8 +193,10 @@ func c08Run(w *W) {
 					if err := m.s.Send([]byte(fmt.Sprintf("%s:%d:%d", m.name, t, i))); err != nil {
 						return nil, err
 					}
-					// pace below every queue length
-					w.Sleep(time.Duration(50+w.Choose(simrt.SProg, 200)) * time.Microsecond)
+					// pace below every queue length (a burst stays within the 128-deep send queues)
+					if !burst {
+						w.Sleep(time.Duration(50+w.Choose(simrt.SProg, 200)) * time.Microsecond)
+					}
 				}
 				return nil, nil
 			}))
@@ -179,6 +216,9 @@ func c08Run(w *W) {
 	w.Sleep(time.Second)
 	w.Settle()
 	for _, m := range members {
+		if m == slowM {
+			continue
+		}
 		count := map[string]int{}
 		for _, b := range m.r.got {
 			count[b]++
